@@ -154,7 +154,7 @@ Other ==
        /\ ~(follow # "" /\ r.ev \in {"op", "ret"} /\ r.actor = follow /\ (Relevant(r) \/ RelevantFail(r) \/ r.ev = "ret"))
        /\ CASE r.ev = "scenario" ->
                  /\ fs' = EmptyFs /\ src' = <<>> /\ bk' = IdleBk /\ gc' = IdleGc /\ snap' = <<>> /\ partial' = {}
-                 /\ cnt' = [backups |-> 0, deletes |-> 0, faults |-> 0]
+                 /\ cnt' = [backups |-> 0, deletes |-> 0, faults |-> 0, torn |-> {}]
                  /\ scen' = r.id /\ saved' = <<>> /\ follow' = "" /\ UNCHANGED <<drift, nchecked, nfaults>>
             [] r.ev = "src" ->
                  /\ src' = TreeOfNodes(r.tree) /\ UNCHANGED <<fs, bk, gc, snap, partial, cnt, scen, saved, follow, drift, nchecked, nfaults>>
@@ -194,7 +194,7 @@ Other ==
 PInit ==
     /\ l = 1 /\ scen = "" /\ saved = <<>> /\ follow = "" /\ drift = {} /\ nchecked = 0 /\ nfaults = 0
     /\ fs = EmptyFs /\ src = <<>> /\ bk = IdleBk /\ gc = IdleGc /\ snap = <<>> /\ partial = {}
-    /\ cnt = [backups |-> 0, deletes |-> 0, faults |-> 0]
+    /\ cnt = [backups |-> 0, deletes |-> 0, faults |-> 0, torn |-> {}]
 
 PNext == Silent \/ Match \/ FaultMatch \/ Drift \/ Return \/ Other
 
